@@ -34,6 +34,7 @@ const (
 	itDelete      = 3 // pod deleted
 	itPodAdd      = 4 // a pod arrives (possibly before its node)
 	itUnbound     = 5 // pod update / resync whose object still has no nodeName (Flag: same resourceVersion)
+	itRemoveNode  = 7 // node deleted (Task = node id)
 	itBound       = 6 // the update that shows the pod bound to the node the cache bound it to (delivered only if the cache holds it as Binding)
 )
 
@@ -77,7 +78,7 @@ func (b bindCase) enc() []int64 {
 		case itNode:
 			n := it.Node
 			out = append(out, n.ID, vh.B(n.Has), n.CPU, n.Mem, n.Pods, n.GPU)
-		case itTerminating, itDelete, itBound:
+		case itTerminating, itDelete, itBound, itRemoveNode:
 			out = append(out, it.Task)
 		case itUnbound:
 			out = append(out, it.Task, vh.B(it.Flag))
@@ -114,7 +115,7 @@ func decBind(in []int64) bindCase {
 			it.Bind = [3]int64{r.Next(), r.Next(), r.Next()}
 		case itNode:
 			it.Node = sched.NodeSpec{ID: r.Next(), Has: r.Bool(), CPU: r.Next(), Mem: r.Next(), Pods: r.Next(), GPU: r.Next()}
-		case itTerminating, itDelete, itBound:
+		case itTerminating, itDelete, itBound, itRemoveNode:
 			it.Task = r.Next()
 		case itUnbound:
 			it.Task = r.Next()
@@ -157,6 +158,8 @@ func errClass(err error) int64 {
 		return 6
 	case strings.Contains(s, "are not enough"):
 		return 7
+	case strings.Contains(s, "host is not ready in the cache"):
+		return 8
 	}
 	panic("AddBindTask returned an error the model has no class for: " + s)
 }
@@ -331,10 +334,16 @@ func (b bindCase) finalSpecs() bindCase {
 			last[it.Node.ID] = it.Node
 		case itPodAdd:
 			out.Tasks = append(out.Tasks, it.Pod)
+		case itRemoveNode:
+			delete(last, it.Task)
 		}
 	}
+	seen := map[int64]bool{}
 	for _, id := range order {
-		out.Nodes = append(out.Nodes, last[id])
+		if n, ok := last[id]; ok && !seen[id] {
+			seen[id] = true
+			out.Nodes = append(out.Nodes, n)
+		}
 	}
 	return out
 }
@@ -390,11 +399,23 @@ func runBind(in []int64) ([]int64, []int64) {
 		index[ctxs[i]] = i
 	}
 	var evMu sync.Mutex
+	placeholderAccepted := false
 	step := func(i int) error {
 		it := b.Items[i]
 		switch it.Kind {
 		case itBind:
-			return sc.AddBindTask(ctxs[i])
+			// (histories with events are serialised by the harness: nothing else runs now)
+			ni := sc.Nodes[sched.NodeName(it.Bind[2])]
+			onPlaceholder := b.Exact && ni != nil && ni.Node == nil
+			err := sc.AddBindTask(ctxs[i])
+			if err == nil && onPlaceholder {
+				evMu.Lock()
+				placeholderAccepted = true
+				evMu.Unlock()
+			}
+			return err
+		case itRemoveNode:
+			_ = sc.RemoveNode(sched.NodeName(it.Task))
 		case itNode:
 			if err := sc.AddOrUpdateNode(nodeObject(it.Node)); err != nil {
 				panic(err)
@@ -504,14 +525,20 @@ func runBind(in []int64) ([]int64, []int64) {
 		held = append(held, tids...)
 	}
 	lastLaw = append(replay.finalSpecs().enc(), held...)
+	lastSig = ""
+	// (An accepted call on an entry without Node object was known finding
+	// C02-bind-to-placeholder-node-unchecked until /repo fix 8dab8c3; no signature is attached any
+	// more: it is a plain law 112 / correspondence failure again.)
+	_ = placeholderAccepted
 	return replay.enc(), got
 }
 
 // law 112 input: the case with every node / pod as last delivered + what the real nodes hold
 var lastLaw []int64
+var lastSig string
 
 func bindLaws(in []int64, law func(lsel int, lin []int64, sig string)) {
-	law(112, lastLaw, "")
+	law(112, lastLaw, lastSig)
 }
 
 // ---------- generator ----------
@@ -921,7 +948,45 @@ func weaveEvents(r *vh.Rng, b *bindCase, free map[int64][4]int64, lastTid int64,
 	return hit
 }
 
+// placeholderCase (directed, audit W7): a node that holds a running pod is deleted (its pods stay on a
+// placeholder NodeInfo), a worker with a view from before the deletion binds a pod to it, the node comes
+// back.  The call is admitted without any check.
+func placeholderCase(r *vh.Rng) bindCase {
+	var b bindCase
+	cpu := int64(r.Range(2, 6)) * 1000
+	b.Nodes = []sched.NodeSpec{{ID: 1, Has: true, CPU: cpu, Mem: 32 << 20, Pods: 20}}
+	if r.Chance(1, 2) {
+		b.Nodes = append(b.Nodes, sched.NodeSpec{ID: 2, Has: true, CPU: 4000, Mem: 32 << 20, Pods: 20})
+	}
+	p := int64(r.Range(1, int(cpu/500)-1)) * 500
+	b.Tasks = []sched.TaskSpec{{ID: 1, Job: 1, Role: 1, CPU: p, Mem: 1 << 20, Status: sched.SRunning, Node: 1}}
+	q := cpu - p + int64(r.Range(1, 2))*500 // does not fit beside p
+	if q > cpu {
+		q = cpu
+	}
+	b.Tasks = append(b.Tasks, sched.TaskSpec{ID: 2, Job: 1, Role: 1, CPU: q, Mem: 1 << 20, Status: sched.SPending})
+	b.Tasks = append(b.Tasks, sched.TaskSpec{ID: 3, Job: 1, Role: 1, CPU: 500, Mem: 1 << 20, Status: sched.SPending})
+	b.Jobs = []sched.JobSpec{{ID: 1, Queue: 1}}
+	b.Workers = int64(r.Range(1, 3))
+	b.Exact = true
+	b.Items = []item{{Kind: itRemoveNode, Task: 1}, {Kind: itBind, Bind: [3]int64{1, 2, 1}}}
+	if r.Chance(1, 2) {
+		b.Items = append(b.Items, item{Kind: itBind, Bind: [3]int64{1, 3, 1}})
+	}
+	b.Items = append(b.Items, item{Kind: itNode, Node: b.Nodes[0]})
+	if r.Chance(1, 2) {
+		b.Items = append(b.Items, item{Kind: itBind, Bind: [3]int64{1, 3, 1}})
+	}
+	return b
+}
+
 func genBind(rng *vh.Rng, n int, emit func(id string, sel int, in []int64, kind string, nontrivial bool, desc any)) {
+	pr := rng.Fork()
+	for i := 0; i < max(3, n/60); i++ {
+		b := placeholderCase(pr.Fork())
+		emit(fmt.Sprintf("bind-placeholder-%d", i), 2, b.enc(), "bind/cache/placeholder", true,
+			map[string]any{"directed": "node removed with pods, bind from a stale view, node re-added", "items": len(b.Items)})
+	}
 	k := n/2 + 1
 	for i := 0; i < k; i++ {
 		r := rng.Fork()
